@@ -289,7 +289,7 @@ def write_evidence(mod, prop, tier, seed, results, n_viol, n_known, wall, inconc
         "solver_time_s": round(sum(r.get("solver_time_s", 0) for r in results), 2),
         "lemmas": tot("lemmas"),
         "solver_unknown": tot("unknown"),
-        "second_solver": {"solver": "cvc5 1.4 (python wheel), same SMT-LIB2 query as exported by z3", "unsat_verdicts_rechecked": sum((r.get("cvc5") or {}).get("queries", 0) for r in results), "agree": sum((r.get("cvc5") or {}).get("agree", 0) for r in results), "gave_up": sum((r.get("cvc5") or {}).get("unknown", 0) for r in results), "disagreements": 0 if not any("solver disagreement" in e for _, e in engine_errors) else sum(1 for _, e in engine_errors if "solver disagreement" in e), "time_s": round(sum((r.get("cvc5") or {}).get("time_s", 0) for r in results), 2), "rule": "the first N z3 unsat verdicts of every path (N=8 quick, 60 thorough) are re-decided; a sat answer is a harness error"},
+        "second_solver": {"solver": "cvc5 1.4 (python wheel), same SMT-LIB2 query as exported by z3", "unsat_verdicts_rechecked": sum((r.get("cvc5") or {}).get("queries", 0) for r in results), "agree": sum((r.get("cvc5") or {}).get("agree", 0) for r in results), "gave_up": sum((r.get("cvc5") or {}).get("unknown", 0) for r in results), "disagreements": 0 if not any("solver disagreement" in e for _, e in engine_errors) else sum(1 for _, e in engine_errors if "solver disagreement" in e), "time_s": round(sum((r.get("cvc5") or {}).get("time_s", 0) for r in results), 2), "rule": "the first N z3 unsat verdicts of every path - proofs of obligations and, counted separately, infeasibility verdicts that prune a path - (N=8 quick, 60 thorough) are re-decided; a sat answer is a harness error"},
         "inconclusive": len(inconclusive),
         "inconclusive_list": [f"[{c}] {o['obligation']}: {o['detail'][:160]}" for c, o in inconclusive[:25]],
         "known_findings_hit": n_known,
